@@ -367,25 +367,46 @@ type labLost struct{ what string }
 
 func (e labLost) Error() string { return e.what }
 
-// expect names the stimulus about to be sent (by its Call-ID); settle then
-// returns only receptions that carry one of the expected Call-IDs.
+// expect names the stimulus about to be sent: settle then returns only
+// receptions that carry the same Call-ID, CSeq and kind (method for requests,
+// status code for responses) - what the proxy relays for a stimulus keeps all
+// three. Anything else is a late arrival of an earlier step (possibly of the
+// same dialog or transaction) and is counted and ignored.
 func (in *labInst) expect(wires ...[]byte) {
 	in.expectIDs = map[string]bool{}
 	for _, w := range wires {
 		if m, err := sipRead(w); err == nil {
-			if id, ok := m.First(hCallID); ok {
-				in.expectIDs[id] = true
+			if k, ok := expectKey(m); ok {
+				in.expectIDs[k] = true
 			}
 		}
 	}
+}
+
+func expectKey(m *RMsg) (string, bool) {
+	id, ok := m.First(hCallID)
+	if !ok {
+		return "", false
+	}
+	cseq, _ := m.First(hCSeq)
+	kind := ""
+	f := strings.Fields(m.Start)
+	if strings.HasPrefix(m.Start, "SIP/") {
+		if len(f) >= 2 {
+			kind = f[1]
+		}
+	} else if len(f) >= 1 {
+		kind = f[0]
+	}
+	return id + "|" + strings.Join(strings.Fields(cseq), " ") + "|" + kind, true
 }
 
 func (in *labInst) mine(r labRx) bool {
 	if len(in.expectIDs) == 0 || r.msg == nil || r.closed {
 		return true
 	}
-	id, ok := r.msg.First(hCallID)
-	if !ok || in.expectIDs[id] {
+	k, ok := expectKey(r.msg)
+	if !ok || in.expectIDs[k] {
 		return true
 	}
 	in.late++
